@@ -40,7 +40,7 @@ def _work(shard):
     except Exception as e:  # noqa: BLE001
         a = ev.Acc()
         tb = traceback.extract_tb(e.__traceback__)
-        if tb and tb[-1].filename.startswith("/repo/"):
+        if tb and tb[-1].filename.startswith(os.environ.get("VERIF_REPO", "/repo").rstrip("/") + "/"):
             # raised INSIDE the library on a path where the harness expected it to succeed: a finding about
             # the library (exit 1), not a harness error.  Replay = re-run of this shard.
             where = f"{tb[-1].filename.split('/src/')[-1]}:{tb[-1].name}"
